@@ -617,6 +617,30 @@ pub fn generate_for(rng: &mut Rng, p: &Pools, mode: &str, idx: u64) -> Workload 
                 let e = rng.pick(&["PH", "PH off; Mo-Su 10:00-12:00", "Mo-Fr 09:00-17:00; PH off", "PH,Su 10:00-14:00"]).to_string();
                 w.threads[th].insert(pos, Op::EditedCalendar { e, k: rng.below(6) as u32, t: *rng.pick(&p.instants), n: rng.range(8, 60) as u32 });
             }
+            // year aliases at the edges of the supported range: the same year-keyed expression in year y and in
+            // y +- 2^k, y the first or the last supported year or an ordinary one (tables indexed by a year modulo
+            // their size, inclusive-for-exclusive bounds at either end)
+            if rng.chance(1, 4) {
+                let e = rng.pick(&["easter 10:00-18:00", "easter -2 days-easter +1 day 08:00-20:00", "Mo-Sa 09:00-18:00; easter off", "Feb 29 10:00-12:00", "week 53 Mo-Su 10:00-12:00", "Dec 31-Jan 01 00:00-24:00", "Jan 01,easter +1 day off; Mo-Su 08:00-20:00"]).to_string();
+                let (y0, sign) = match rng.below(4) {
+                    0 => (1900, 1),
+                    1 => (9999, -1),
+                    2 => (1900 + rng.below(8) as i32, 1),
+                    _ => (2024, 1),
+                };
+                let at = |y: i32, m: u32, d: u32| chrono::NaiveDate::from_ymd_opt(y, m, d).unwrap().and_hms_opt(9, 30, 0).unwrap().and_utc().timestamp();
+                let (m, d) = *rng.pick(&[(3u32, 20u32), (4, 1), (2, 27), (12, 30), (1, 1)]);
+                // y0, every y0 +- 2^k (k = 4..12), y0 again
+                let mut years = vec![y0];
+                years.extend((4..=12).map(|k| y0 + sign * (1 << k)));
+                years.push(y0);
+                for y in years {
+                    let th = rng.usize_below(w.threads.len());
+                    let pos = rng.usize_below(w.threads[th].len() + 1);
+                    let t = at(y, m, d);
+                    w.threads[th].insert(pos, if rng.chance(1, 2) { Op::StateNext { e: e.clone(), c: Ctx::Default, t } } else { Op::Iter { e: e.clone(), c: Ctx::Default, t, n: 4 } });
+                }
+            }
             // two live iterators advanced in turns on one thread; one in ten of these walks for more than a century
             if rng.chance(1, 3) && !p.dense_exprs.is_empty() {
                 let th = rng.usize_below(w.threads.len());
